@@ -224,6 +224,15 @@ def find_item(toks, path, lo=0, hi=None):
                 t = toks[k]
                 if t.kind == "punct" and t.text in OPEN:
                     k = match_close(toks, k) + 1; continue
+                if t.text == "impl" and t.kind == "ident" and comp.split()[0].startswith("impl"):
+                    # an impl block declared inside a function body (item statement)
+                    j = k + 1
+                    while toks[j].text != "{":
+                        j = match_close(toks, j) + 1 if (toks[j].kind == "punct" and toks[j].text in OPEN) else j + 1
+                    header = "".join(x.text for x in toks[k:j])
+                    if header == comp_n or header.startswith(comp_n + "where"):
+                        found.append(Item(toks, k, match_close(toks, j), "impl", header, header, k, j))
+                    k = match_close(toks, j) + 1; continue
                 if t.text == "fn" and k + 1 < cur_hi and toks[k+1].text == want and comp.split()[0] == "fn":
                     a = k
                     while a - 1 >= cur_lo and toks[a-1].text in ("async", "pub", "const", "unsafe"): a -= 1
@@ -255,7 +264,7 @@ def find_item(toks, path, lo=0, hi=None):
                 key = cand.header
             else:
                 key = cand.kw + (cand.name or "")
-            if key == comp_n:
+            if key == comp_n or (cand.kw == "impl" and key.startswith(comp_n + "where")):
                 found.append(cand)
         if len(found) != 1:
             raise ScanError(f"item {comp!r} of path {path!r}: found {len(found)} candidates")
